@@ -324,6 +324,8 @@ func (e *Exec) execBlock(fr *frame, b *ssa.BasicBlock, pred *ssa.BasicBlock, st 
 	e.execInstrs(fr, b, firstNonPhi(b), st)
 }
 
+var intPhiFallback = true
+
 func firstNonPhi(b *ssa.BasicBlock) int {
 	i := 0
 	for i < len(b.Instrs) {
@@ -414,14 +416,16 @@ func (e *Exec) loopHeader(fr *frame, li *loopInfo, b, pred *ssa.BasicBlock, st *
 	e.evalPhis(b, pred, st)
 	vars := e.loopVars(fr, li, st)
 	for _, inv := range li.spec.Invariants {
-		g, err := e.evalSpecBool(inv.Expr, &specEnv{goal: true, into: st, st: st, old: e.entry, vars: vars, oldVars: e.entryVars, fr: fr, pkg: pkgOf(fr.fn)})
-		if err != nil {
-			e.errorf("%s: invariant %s: %v", name, inv.Label, err)
-			continue
-		}
 		kind := "inv-entry"
 		if fromInside {
 			kind = "inv-preserved"
+		}
+		g, err := e.evalSpecBool(inv.Expr, &specEnv{goal: true, into: st, st: st, old: e.entry, vars: vars, oldVars: e.entryVars, fr: fr, pkg: pkgOf(fr.fn)})
+		if err != nil {
+			// the clause no longer fits the code (e.g. it names a local that is gone): the obligation cannot be discharged
+			e.notes = appendUnique(e.notes, fmt.Sprintf("%s: invariant %s: %v", name, inv.Label, err))
+			e.oblige(st, fmt.Sprintf("%s/%s:%s", name, kind, inv.Label), inv.Props, BoolLit(false), fmt.Sprintf("contract clause cannot be evaluated on the current code: %v", err))
+			continue
 		}
 		e.oblige(st, fmt.Sprintf("%s/%s:%s", name, kind, inv.Label), inv.Props, g, "")
 	}
@@ -539,6 +543,7 @@ func (e *Exec) loopHeader(fr *frame, li *loopInfo, b, pred *ssa.BasicBlock, st *
 			hst.pc = append(hst.pc, g)
 		}
 	}
+	_ = intPhiFallback
 	lc := &loopCtx{}
 	if li.spec.Decreases != nil {
 		m, err := e.evalSpec(li.spec.Decreases, &specEnv{into: hst, st: hst, old: e.entry, vars: vars, oldVars: e.entryVars, fr: fr, pkg: pkgOf(fr.fn)})
@@ -781,6 +786,23 @@ func (e *Exec) loopVars(fr *frame, li *loopInfo, st *State) map[string]SV {
 				name = "rangeIndex"
 			}
 			vars[name] = sv
+		}
+	}
+	// the loop counter by role: if the header has exactly one integer phi that is not a range index, it is
+	// also available as `ix`, so that contracts need not depend on its source name
+	var intPhis []*ssa.Phi
+	for _, in := range li.header.Instrs {
+		phi, ok := in.(*ssa.Phi)
+		if !ok {
+			break
+		}
+		if b, ok := phi.Type().Underlying().(*types.Basic); ok && b.Info()&types.IsInteger != 0 && phi.Comment != "rangeindex" {
+			intPhis = append(intPhis, phi)
+		}
+	}
+	if len(intPhis) == 1 {
+		if sv, ok := st.env[intPhis[0]]; ok {
+			vars["ix"] = sv
 		}
 	}
 	// range-over-map iterator state: `visited` is the set of keys already produced
